@@ -8,9 +8,9 @@ solver = "kissat"
 function = "DetailedPlacement::canPlace, canInsert, canSwap, positionOnInsert, positionsOnSwap, isRowCompatible (detailed_placement.cpp/.hpp): feasibility tests against the site-width specification, computed positions inside the destination site"
 variants = [
   {name = "canInsert", enforce = "spec_canInsert", defines = ["H_CANINSERT"]},
-  {name = "posInsert", enforce = "spec_positionOnInsert", defines = ["H_POSINSERT"]},
-  {name = "canSwap", enforce = "spec_canSwap", defines = ["H_CANSWAP"]},
-  {name = "posSwap", enforce = "spec_positionsOnSwap", defines = ["H_POSSWAP"]},
+  {name = "posInsert", safety_tier = "thorough", enforce = "spec_positionOnInsert", defines = ["H_POSINSERT"]},
+  {name = "canSwap", safety_tier = "thorough", enforce = "spec_canSwap", defines = ["H_CANSWAP"]},
+  {name = "posSwap", safety_tier = "thorough", enforce = "spec_positionsOnSwap", defines = ["H_POSSWAP"]},
 ]
 assumptions = ["these quick-tier units check the feasibility tests and the centring formulas against the site specification on a well-formed state; the composition (insert/swap keep the whole invariant, never throw when feasible) is the thorough-tier unit c02_dp_insert"]
 [replay]
